@@ -8,10 +8,12 @@ pub mod c09;
 pub mod c10;
 pub mod c11;
 pub mod c12;
+pub mod c13;
 pub mod c14;
 pub mod c15;
 pub mod c16;
 pub mod c17;
+pub mod c19;
 pub mod c20;
 
 use crate::report::Report;
@@ -29,10 +31,12 @@ pub fn run(p: &Params) -> Report {
         "C10" => c10::run(p),
         "C11" => c11::run(p),
         "C12" => c12::run(p),
+        "C13" => c13::run(p),
         "C14" => c14::run(p),
         "C15" => c15::run(p),
         "C16" => c16::run(p),
         "C17" => c17::run(p),
+        "C19" => c19::run(p),
         "C20" => c20::run(p),
         other => {
             let mut r = Report::new(other);
